@@ -178,26 +178,74 @@ Definition cs_utf8 : text := [85; 84; 70; 45; 56].
 Definition encode_text (enc page : text) : res text :=
   if text_eqb enc cs_utf8 then utf8_bytes page else EncErr.
 
+(* ------------------------------------------------------------------ json_formatter= (documented hook)
+   A custom formatter is a callable (status, body, title, environ) -> dict.  The family modelled (and
+   generated by the harness): the dict is built member by member, in order, by dict assignment; a
+   member's value is the body, the status, the title, a constant, environ[K] (KeyError when the
+   request does not carry K) or environ.get(K, D). *)
+Inductive fsrc := FBody | FStatus | FTitle | FConst (t : text) | FEnv (k : text) | FEnvGet (k d : text).
+Definition fmt := list (text * fsrc).
+Definition fsrc_val (status body title : text) (environ : list (text * text)) (s : fsrc) : res text :=
+  match s with
+  | FBody => Ok body
+  | FStatus => Ok status
+  | FTitle => Ok title
+  | FConst t => Ok t
+  | FEnv k => match lookup k environ with Some v => Ok v | None => KeyErr end
+  | FEnvGet k d => Ok (match lookup k environ with Some v => v | None => d end)
+  end.
+Fixpoint apply_fmt (f : fmt) (status body title : text) (environ : list (text * text)) (acc : env) : res env :=
+  match f with
+  | [] => Ok acc
+  | (k, s) :: r => rbind (fsrc_val status body title environ s)
+                         (fun v => apply_fmt r status body title environ (aset k v acc))
+  end.
+
 (* the exception object: the attributes the translated functions read and write.
    ob_ctype / ob_charset = [] stands for "no Content-Type header" / charset None;
-   ob_body = [] is an empty body (has_body false). *)
+   ob_body = [] is an empty body (has_body false); ob_formatter = Some f: the instance
+   attribute _json_formatter set by the constructor shadows the method of the class. *)
 Record obj := mkObj {
   ob_code : text; ob_title : text; ob_expl : text;
   ob_tmpl : text; ob_tmpl_custom : bool;      (* body_template_obj; "is not HTTPException.body_template_obj" *)
   ob_empty : bool;
   ob_status : text; ob_detail : option text; ob_comment : option text;
   ob_headers : list (text * text);            (* headers a Template identifier can name (no Content-Type/-Length) *)
-  ob_ctype : text; ob_charset : text; ob_body : text }.
+  ob_ctype : text; ob_charset : text; ob_body : text;
+  ob_formatter : option fmt }.
 
 Definition has_body (o : obj) : bool := negb (is_nil (ob_body o)).
 
-(* Response.__init__(self, status=status, **kw) of WebOb: default content type text/html with
-   charset UTF-8, Content-Length 0, and each keyword set as an attribute: location= becomes the
-   Location header.  Other keywords are not modelled (none is generated). *)
+(* WebOb: which content types get a charset parameter (webob.response._content_type_has_charset,
+   _is_xml, and the text/html shortcut of the content_type setter / the constructor) *)
+Definition endswith (p s : text) : bool := startswith (rev p) (rev s).
+Definition t_html : text := [116; 101; 120; 116; 47; 104; 116; 109; 108].
+Definition p_text_ : text := [116; 101; 120; 116; 47].                                               (* text/ *)
+Definition p_app_xml : text := [97; 112; 112; 108; 105; 99; 97; 116; 105; 111; 110; 47; 120; 109; 108].   (* application/xml *)
+Definition p_app_ : text := [97; 112; 112; 108; 105; 99; 97; 116; 105; 111; 110; 47].               (* application/ *)
+Definition p_image_ : text := [105; 109; 97; 103; 101; 47].                                         (* image/ *)
+Definition s_xml : text := [43; 120; 109; 108].                                                     (* +xml *)
+Definition texty (ct : text) : bool :=
+  text_eqb ct t_html || startswith p_text_ ct || startswith p_app_xml ct
+  || (startswith p_app_ ct && endswith s_xml ct) || (startswith p_image_ ct && endswith s_xml ct).
+(* self.content_type = v (v without parameters): Content-Type := v, plus the default charset
+   when v is "texty"; every earlier parameter (a charset given to the constructor) is dropped *)
+Definition default_charset (ct : text) : text := if texty ct then cs_utf8 else [].
+
+(* Response.__init__(self, status=status, **kw) of WebOb: content type = content_type= or the
+   default text/html; charset parameter = charset= (default UTF-8) when the type is texty and
+   the charset is not empty/None; Content-Length 0; every other keyword is set as an attribute:
+   location= becomes the Location header.  Keywords: content_type (without parameters),
+   charset, location; others are not modelled (none is generated). *)
+Definition k_content_type : text := [99; 111; 110; 116; 101; 110; 116; 95; 116; 121; 112; 101].
+Definition k_charset : text := [99; 104; 97; 114; 115; 101; 116].
+Definition kw_ctype (kw : list (text * text)) : text :=
+  match lookup k_content_type kw with Some v => if is_nil v then t_html else v | None => t_html end.
+Definition kw_charset (kw : list (text * text)) : text :=
+  if texty (kw_ctype kw) then match lookup k_charset kw with Some c => c | None => cs_utf8 end else [].
 Definition kw_headers (kw : list (text * text)) : list (text * text) :=
   flat_map (fun kv => if text_eqb (fst kv) [108; 111; 99; 97; 116; 105; 111; 110]
                       then [([76; 111; 99; 97; 116; 105; 111; 110], snd kv)] else []) kw.
-Definition t_html : text := [116; 101; 120; 116; 47; 104; 116; 109; 108].
 
 Record output := mkOutput { o_status : text; o_ctype : text; o_charset : text; o_body : text }.
 (* Response.__call__: what reaches start_response and the body iterable *)
